@@ -216,7 +216,7 @@ func runPgExt(r *core.Run) {
 		}
 		body = body[:len(body):len(body)]
 		r.Begin("pg-malparse-"+core.Hex(body), true, "stream:malformed", "pg:malformed-parse")
-		r.Do("C12.pg.parse.fields " + core.Hex(body))
+		noPanic(r, "pg-parse-panic", "C12.pg.parse.fields "+core.Hex(body), r.Do("C12.pg.parse.fields "+core.Hex(body)))
 	}
 	// ---- Bind ----
 	for i := 0; i < r.N(400, 15000); i++ {
@@ -268,6 +268,6 @@ func runPgExt(r *core.Run) {
 		}
 		body = body[:len(body):len(body)]
 		r.Begin("pg-malbind-"+core.Hex(body), true, "stream:malformed", "pg:malformed-bind")
-		r.Do("C12.pg.bind.fields " + core.Hex(body))
+		noPanic(r, "pg-bind-panic", "C12.pg.bind.fields "+core.Hex(body), r.Do("C12.pg.bind.fields "+core.Hex(body)))
 	}
 }
